@@ -52,16 +52,23 @@ class C17(SimpleProperty):
             # keep every segment non-empty and never a dot segment
             ident = "/".join(s for s in ident.split("/") if s and s not in (".", "..")) or "x"
             paths.append((p, ident))
-        return {"records": recs, "delim": delim, "requests": paths}
+        # in 40% of the cases the apps are built first and the converter is extended afterwards: the handlers
+        # must ask the live converter
+        late = rng.randint(1, len(recs) - 1) if len(recs) > 1 and rng.random() < 0.4 else 0
+        return {"records": recs, "delim": delim, "requests": paths, "late": late}
 
     def run_impl(self, case):
         from curies import Converter
         from curies.resolver_service import get_fastapi_app, get_flask_app
         from starlette.testclient import TestClient
 
-        conv = Converter([common.dec_record(r) for r in case["records"]], delimiter=case["delim"])
+        recs = [common.dec_record(r) for r in case["records"]]
+        late = case.get("late", 0)
+        conv = Converter(recs[: len(recs) - late], delimiter=case["delim"])
         fl = get_flask_app(conv).test_client()
         fa = TestClient(get_fastapi_app(conv))
+        for r in recs[len(recs) - late:]:
+            conv.add_record(r)
         out = {"flask": [], "fastapi": [], "expand": []}
         for p, i in case["requests"]:
             path = "/" + p + case["delim"] + i
@@ -100,7 +107,7 @@ class C17(SimpleProperty):
         return fails
 
     def tags(self, case, impl):
-        out = [f"delim={case['delim']!r}"]
+        out = [f"delim={case['delim']!r}", "converter-extended-after-app-built" if case.get("late") else "converter-complete"]
         for (p, i), r in zip(case["requests"], impl["flask"]):
             out.append(f"status={r[0]}")
             if "/" in i:
@@ -117,7 +124,8 @@ class C17(SimpleProperty):
 
     def readable(self, case, impl):
         recs = "; ".join(common.show_record(r) for r in case["records"])
-        out = [f"Converter([{recs}], delimiter={case['delim']!r})"]
+        out = [f"Converter([{recs}], delimiter={case['delim']!r}); the last {case.get('late', 0)} record(s) are added with "
+               f"add_record after the apps were built"]
         for k, (p, i) in enumerate(case["requests"]):
             out.append(f"GET /{p}{case['delim']}{i} -> flask {impl['flask'][k]}, fastapi {impl['fastapi'][k]}, expand {impl['expand'][k]!r}")
         return out
